@@ -202,6 +202,8 @@ impl TypedProgram {
         } else {
             None
         };
+        // The outermost scope holds the consts, the parameters are bound in a scope of their own:
+        let mut params = vec![];
         if let Some((param, elem_ty, size)) = single_array_as_multiple_parties {
             let mut wires = vec![];
             for _ in 0..*size {
@@ -212,7 +214,7 @@ impl TypedProgram {
                 }
                 input_gates.push(type_size);
             }
-            env.let_in_current_scope(param.name.clone(), wires);
+            params.push((param.name.clone(), wires));
         } else {
             for param in fn_def.params.iter() {
                 let type_size = param.ty.size_in_bits_for_defs(self, &const_sizes);
@@ -222,7 +224,7 @@ impl TypedProgram {
                     wire += 1;
                 }
                 input_gates.push(type_size);
-                env.let_in_current_scope(param.name.clone(), wires);
+                params.push((param.name.clone(), wires));
             }
         }
         let builder_opts = CircuitBuilderOptions {
@@ -320,7 +322,12 @@ impl TypedProgram {
                 _ => {}
             }
         }
+        env.push();
+        for (param, wires) in params {
+            env.let_in_current_scope(param, wires);
+        }
         let output_gates = compile_block(&fn_def.body, self, &mut env, &mut circuit);
+        env.pop();
         Ok((circuit.build(output_gates), fn_def, const_sizes))
     }
 }
@@ -1185,11 +1192,13 @@ impl TypedExpr {
                     bindings.push((param.name.clone(), arg));
                     env.pop();
                 }
+                // the callee sees the consts and its parameters, but no variable of the caller:
+                let mut env = env.outermost_scope();
                 env.push();
                 for (var, binding) in bindings {
                     env.let_in_current_scope(var.clone(), binding);
                 }
-                let body = compile_block(&fn_def.body, prg, env, circuit);
+                let body = compile_block(&fn_def.body, prg, &mut env, circuit);
                 env.pop();
                 body
             }
